@@ -114,6 +114,9 @@ VBlowUp(r) ==
           ELSE IF ~IsRatMat(r.tensor, N, N) \/ ~IsRatMat(r.etensor, N, N) THEN "C32:not-exact"
           ELSE IF ~C32_BlowUp(r.tensor, ms, r.nfin, r.nfout, r.qed) THEN "C32:blow-up"
           ELSE IF ~C32_BlowUp(r.etensor, es, r.nfin, r.nfout, r.qed) THEN "C32:blow-up-error-tensor"
+          (* members are an integer times one 2 x 2 pattern on the grid indices: the tensor (flavour, x, flavour, x) *)
+          (* carries the pattern times the weight at every pair of grid indices                                      *)
+          ELSE IF ~r.xOk THEN "C32:grid-indices-misplaced"
           ELSE IF r.tensor # ToFlavorTensor(ms, r.qed) THEN "CONF:tensor-differs-from-transcription"
           ELSE "ok"
 
